@@ -5,6 +5,13 @@ pub assume_specification<T, E> [std::result::Result::<T, E>::unwrap_or] (r: std:
     where E: std::marker::Destruct, T: std::marker::Destruct,
     ensures o == (match r { Ok(v) => v, Err(_) => d });
 
+pub assume_specification<T> [std::option::Option::<T>::or] (o: std::option::Option<T>, optb: std::option::Option<T>) -> (r: std::option::Option<T>)
+    ensures r == (match o { Some(x) => Some(x), None => optb });
+pub assume_specification<T, U> [std::option::Option::<T>::and] (o: std::option::Option<T>, optb: std::option::Option<U>) -> (r: std::option::Option<U>)
+    ensures r == (match o { Some(_) => optb, None => None::<U> });
+pub assume_specification<T> [std::option::Option::<T>::xor] (o: std::option::Option<T>, optb: std::option::Option<T>) -> (r: std::option::Option<T>)
+    ensures r == (match (o, optb) { (Some(x), None) => Some(x), (None, Some(y)) => Some(y), _ => None::<T> });
+
 pub assume_specification [std::cmp::Ordering::is_ne] (o: std::cmp::Ordering) -> (b: bool)
     ensures b == (o != std::cmp::Ordering::Equal);
 
@@ -28,6 +35,22 @@ pub assume_specification<T, E> [std::result::Result::<T, E>::unwrap_or_default] 
 pub assume_specification<T> [bool::then_some] (b: bool, v: T) -> (r: std::option::Option<T>)
     where T: std::marker::Destruct,
     ensures r == (if b { Some(v) } else { None::<T> });
+
+
+// ---- a batch of small std functions that code under contract may start to use (all ASSUMED: std documentation restated) ----
+pub assume_specification [usize::abs_diff] (a: usize, b: usize) -> (r: usize) ensures r == (if a >= b { a - b } else { b - a });
+pub assume_specification [u32::abs_diff] (a: u32, b: u32) -> (r: u32) ensures r == (if a >= b { a - b } else { b - a });
+pub assume_specification [u8::is_ascii_digit] (b: &u8) -> (r: bool) ensures r == (48 <= *b && *b <= 57);
+pub assume_specification [u8::is_ascii_whitespace] (b: &u8) -> (r: bool) ensures r == (*b == 9u8 || *b == 10u8 || *b == 12u8 || *b == 13u8 || *b == 32u8);
+pub assume_specification<T, U> [std::option::Option::<T>::zip] (o: std::option::Option<T>, p: std::option::Option<U>) -> (r: std::option::Option<(T, U)>)
+    ensures r == (match (o, p) { (Some(x), Some(y)) => Some((x, y)), _ => None::<(T, U)> });
+pub assume_specification<T: Copy> [std::option::Option::<&T>::copied] (o: std::option::Option<&T>) -> (r: std::option::Option<T>)
+    ensures r == (match o { Some(x) => Some(*x), None => None::<T> });
+pub assume_specification<T> [std::option::Option::<std::option::Option<T>>::flatten] (o: std::option::Option<std::option::Option<T>>) -> (r: std::option::Option<T>)
+    ensures r == (match o { Some(x) => x, None => None::<T> });
+pub assume_specification<'a, T> [<[T]>::split_last] (s: &'a [T]) -> (r: std::option::Option<(&'a T, &'a [T])>)
+    ensures match r { Some((x, rest)) => s@.len() > 0 && *x == s@[s@.len() - 1] && rest@ == s@.subrange(0, s@.len() - 1), None => s@.len() == 0 };
+pub assume_specification<T: PartialEq> [<[T]>::contains] (s: &[T], x: &T) -> (r: bool);   // (no functional contract: PartialEq is user-defined in general)
 
 // ---- comparator vocabulary -------------------------------------------------------------------------
 pub open spec fn ord_rank(o: Ordering) -> int { match o { Ordering::Less => 0, Ordering::Equal => 1, Ordering::Greater => 2 } }
